@@ -527,9 +527,14 @@ def repr_values(condition: Callable[..., bool], lambda_inspection: Optional[Cond
         # Only the parameters of the condition are visible in its body; the remaining arguments of the call must not
         # shadow the variables which the condition picks from its closure or from the globals.
         condition_parameters = inspect.signature(condition).parameters
-        variable_lookup = collect_variable_lookup(
-            condition=condition,
-            resolved_kwargs={key: value for key, value in selected_kwargs.items() if key in condition_parameters})
+        condition_kwargs = {key: value for key, value in selected_kwargs.items() if key in condition_parameters}
+
+        # A parameter of the condition which the call does not supply takes its default value.
+        for name, parameter in condition_parameters.items():
+            if name not in condition_kwargs and parameter.default is not inspect.Parameter.empty:
+                condition_kwargs[name] = parameter.default
+
+        variable_lookup = collect_variable_lookup(condition=condition, resolved_kwargs=condition_kwargs)
 
         recompute_visitor = icontract._recompute.Visitor(variable_lookup=variable_lookup)
 
